@@ -28,15 +28,28 @@ DEFAULT_EXCLUDED_PATHS = [
 ]
 
 
-def file_line_patterns(file_path: str | Path, patterns: Sequence[str]):
+def file_line_patterns(
+    file_path: str | Path,
+    patterns: Sequence[str],
+    parent_path: Optional[str | Path] = None,
+):
     """
     Find the lines included or excluded for a given file_path among the patterns
+
+    When `parent_path` is given, patterns are also matched against the path relative
+    to it, which is how `match_files` interprets the same patterns.
     """
+    candidates = [str(file_path)]
+    if parent_path is not None:
+        try:
+            candidates.append(str(Path(file_path).relative_to(parent_path)))
+        except ValueError:
+            pass
     return [
         int(result[1])
         for pat in patterns
         if len(result := pat.split(":")) == 2
-        and fnmatch.fnmatch(str(file_path), result[0])
+        and any(fnmatch.fnmatch(candidate, result[0]) for candidate in candidates)
     ]
 
 
